@@ -356,6 +356,25 @@ pub fn oracle(c: &Case, st: &mut Stats) -> Verdict {
                 }
                 None => vensure!(got.is_none(), "c13.out-of-range-accepted", "undocumented duration reads as {got:?}; source {src:?}"),
             }
+            // `time` together with prep / cook time: the accessor reads `time`; the others are only
+            // the documented fallback when `time` is missing
+            if matches!(key, "time") {
+                let val = if old_style { old.clone().unwrap() } else { yaml.clone() };
+                let src2 = if old_style {
+                    format!(">> prep time: 10\n>> {key}: {val}\n>> cook time: 1h\n\nMix @salt{{1%g}}.\n")
+                } else {
+                    format!("---\nprep time: 10\n{key}: {val}\ncook time: 1h\n---\nMix @salt{{1%g}}.\n")
+                };
+                if let Some(r2) = p.parse(&src2).output() {
+                    let t2 = guard(|| r2.metadata.time(conv)).map_err(|p| Violation::new("c13.panic.accessor", format!("Metadata::time panicked: {p}; source {src2:?}")))?;
+                    let expect2 = got.map(RecipeTime::Total);
+                    vensure!(
+                        t2 == expect2,
+                        "c13.time-fallback-despite-time-key",
+                        "with `time`, `prep time` and `cook time` all present Metadata::time gives {t2:?}, `time` alone reads as {got:?}; source {src2:?}"
+                    );
+                }
+            }
         }
         Expect::Servings(e) => {
             let got = raw.as_servings();
